@@ -64,6 +64,10 @@ def neg_zero_slices(fn: FuncInfo):
                         if excludes_zero(p.test, e, in_body):
                             guarded = True
                     cur = p
+                # guard by an earlier `if E == 0: return ...` in a dominating block
+                if not guarded:
+                    from ..astutil import early_exit_tests
+                    guarded = any(excludes_zero(t, e, False) for t in early_exit_tests(fn, n))
                 yield n, e, guarded
 
 
@@ -166,7 +170,8 @@ def check(ctx: Ctx) -> None:
     ctx.rule('C02.d', 'symmetric power scale, matching ifft/fft geometry, CP add/remove agree', floor=4)
     mo = M.func(OF, 'OFDM.modulate')
     de = M.func(OF, 'OFDM.demodulate')
-    lm, ld = T.local_terms(M, mo), T.local_terms(M, de)
+    # helpers wrapped around the provider are looked through; the provider itself stays uninterpreted
+    lm, ld = T.local_terms(M, mo, opaque={'_calculate_power_scale'}), T.local_terms(M, de, opaque={'_calculate_power_scale'})
 
     def coeff(loc, name):
         for v in loc.values():
@@ -192,12 +197,19 @@ def check(ctx: Ctx) -> None:
                       % (_fft_geometry(ci) if ci else None, _fft_geometry(cf) if cf else None), mo.path, mo.lineno, operand='fft-geometry')
     add = M.func(OF, 'OFDM._add_CP')
     ctx.instance('C02.d', 'OFDM._add_CP')
+    from ..astutil import expander
     p = [x for x in add.params if x != 'self'][0]
-    hs = [n for n in walk_no_nested(add.node) if isinstance(n, ast.Call) and norm(n.func) in ('np.hstack', 'np.concatenate')]
+    ex = expander(add)
+    hs = [n for n in walk_no_nested(add.node) if isinstance(n, ast.Call) and norm(n.func) in ('np.hstack', 'np.concatenate', 'np.append')]
     ok = False
-    if len(hs) == 1 and isinstance(hs[0].args[0], (ast.List, ast.Tuple)) and len(hs[0].args[0].elts) == 2:
-        pre, body = hs[0].args[0].elts
-        ok = norm(body) == p and norm(pre).replace(' ', '') == '%s[:,-self.cp_size:]' % p
+    if len(hs) != 1:
+        ctx.error('C02.d: _add_CP does not join prefix and body with one hstack/concatenate (cannot tell)')
+    h = hs[0]
+    parts = h.args[0].elts if h.args and isinstance(h.args[0], (ast.List, ast.Tuple)) else (h.args[:2] if norm(h.func) == 'np.append' else None)
+    if parts is None or len(parts) != 2:
+        ctx.error('C02.d: the joined parts of _add_CP are not a two-element literal (cannot tell)')
+    pre, body = (ex(x) for x in parts)
+    ok = norm(body) == p and norm(pre).replace(' ', '') == '%s[:,-self.cp_size:]' % p
     ctx.obligation('C02.d', 'OFDM._add_CP', ok, {'hstack': norm(hs[0])[:90] if hs else None})
     if not ok:
         ctx.violation('C02.d', 'OFDM._add_CP', 'the prefix is not the last cp_size columns of the very array that forms the body',
@@ -205,10 +217,22 @@ def check(ctx: Ctx) -> None:
     rem = M.func(OF, 'OFDM._remove_CP')
     ctx.instance('C02.d', 'OFDM._remove_CP')
     p = [x for x in rem.params if x != 'self'][0]
-    src = norm(rem.node).replace(' ', '')
-    ok = ('%s.shape=(num_ofdm_symbols,self.fft_size+self.cp_size)' % p in src or 'reshape' in src and 'self.fft_size+self.cp_size' in src) \
-        and '%s[:,self.cp_size:]' % p in src
-    ctx.obligation('C02.d', 'OFDM._remove_CP', ok, None)
+    ex = expander(rem)
+    widths, drops = [], []
+    for n in walk_no_nested(rem.node):
+        if isinstance(n, ast.Assign) and norm(n.targets[0]) == p + '.shape' and isinstance(n.value, ast.Tuple) and len(n.value.elts) == 2:
+            widths.append(norm(ex(n.value.elts[1])).replace(' ', ''))
+        if isinstance(n, ast.Call) and isinstance(n.func, ast.Attribute) and n.func.attr == 'reshape':
+            a = n.args[1:] if norm(n.func.value) in ('np', 'numpy') else n.args
+            a = a[0].elts if len(a) == 1 and isinstance(a[0], ast.Tuple) else a
+            if len(a) == 2:
+                widths.append(norm(ex(a[1])).replace(' ', ''))
+        if isinstance(n, ast.Return) and n.value is not None:
+            drops.append(norm(ex(n.value)).replace(' ', ''))
+    if len(widths) != 1 or len(drops) != 1:
+        ctx.error('C02.d: _remove_CP does not reshape once and return once (cannot tell): widths %s returns %s' % (widths, drops))
+    ok = widths[0] in ('self.fft_size+self.cp_size', 'self.cp_size+self.fft_size') and drops[0] == '%s[:,self.cp_size:]' % p
+    ctx.obligation('C02.d', 'OFDM._remove_CP', ok, {'row_width': widths[0], 'returned': drops[0]})
     if not ok:
         ctx.violation('C02.d', 'OFDM._remove_CP', 'does not drop exactly the leading cp_size columns of rows of length '
                       'fft_size + cp_size', rem.path, rem.lineno, operand='remove')
